@@ -238,13 +238,17 @@ def check_sqrt(rep, F, rule='ROOT-SHAPE'):
         pe = TB.PathEnum(F, fn, max_paths=64)
         paths = pe.run()
     except Undecided as e:
-        rep.undecided(rule, fn.key + ':root-shape', 'paths not enumerable: %s' % e, fn.where())
+        rep.undecided_anchor(rule, fn.key + ':root-shape', 'paths not enumerable: %s' % e, fn.where())
         return 0
     ni, si = _int_param(fn), _scale_param(fn)
-    if ni is None or si is None:
-        rep.undecided(rule, fn.key + ':root-shape', 'parameters (integer, scale) not recognised', fn.where())
+    if ni is not None and si is None and re.search(r'WithScale<', fn.argtys()[ni - 1]):
+        # the operand handed over as one (integer, scale) carrier
+        n_term, s_term = T('field', T('param', ni), 'value'), T('field', T('param', ni), 'scale')
+    elif ni is None or si is None:
+        rep.undecided_anchor(rule, fn.key + ':root-shape', 'parameters (integer, scale) not recognised', fn.where())
         return 0
-    n_term, s_term = T('param', ni), T('param', si)
+    else:
+        n_term, s_term = T('param', ni), T('param', si)
     res = {}
     rank = {'ok': 0, 'undecided': 1, 'violation': 2}
 
@@ -355,7 +359,7 @@ def check_cbrt(rep, F, rule='ROOT-SHAPE'):
         pe = TB.PathEnum(F, fn, max_paths=400)
         paths = pe.run()
     except Undecided as e:
-        rep.undecided(rule, key, 'paths not enumerable: %s' % e, fn.where())
+        rep.undecided_anchor(rule, key, 'paths not enumerable: %s' % e, fn.where())
         return 0
     verdicts = set()
     why = {}
@@ -445,7 +449,7 @@ def check_cbrt(rep, F, rule='ROOT-SHAPE'):
                         verdicts.add('violation')
                         why['violation'] = 'the "discarded part is zero" flag (%s) is decided from the trimmed digits of the floor root alone: root^3 is never compared with the radicand, so an inexact root whose trimmed digits are all zero is rounded as exact' % TB.show(inst(bo))[:60]
     if not verdicts:
-        rep.undecided(rule, key, 'no from_digit_and_lazy_trailing_zeros call found on the paths of impl_cbrt_uint_scale', fn.where())
+        rep.undecided_anchor(rule, key, 'no from_digit_and_lazy_trailing_zeros call found on the paths of impl_cbrt_uint_scale', fn.where())
         return 0
     if 'violation' in verdicts:
         rep.violation(rule, key, why['violation'], fn.where())
